@@ -140,6 +140,45 @@ static void lists_and_functions(unsigned long long& unit)
 			}
 }
 
+// Export_Function on descending ranges and on abscissa lists with repeated entries: the file holds the points as given, in the order given
+static void function_orders(unsigned long long& unit)
+{
+	auto f = [](double x) { return 3.5 * x * x - 1.0 / (1 + x); };
+	for(int lg = 0; lg < 2; lg++)
+		for(unsigned steps : {2u, 3u, 7u})
+		{
+			if(!mc::mine(unit++)) continue;
+			double hi = lg ? 1e5 : 6, lo = lg ? 1e-3 : 0.5;	 // descending: from hi down to lo
+			std::string key = std::string(lg ? "log" : "linear") + ",descending,steps=" + std::to_string(steps);
+			std::string p1 = g_dir + "/c20_fo_" + std::to_string(getpid());
+			VV b1;
+			V xs = lg ? Log_Space(hi, lo, steps) : Linear_Space(hi, lo, steps);
+			if(mc::library_exits([&]() { Export_Function(p1, f, hi, lo, steps, V{}, lg, "# x f"); b1 = Import_Table(p1, V{}, 1); })) { fail("function", key, "terminated_process", "ended the process"); continue; }
+			g_cases++;
+			g_trans += 2;
+			bool ok = b1.size() == steps;
+			for(unsigned i = 0; ok && i < steps; i++) ok = b1[i].size() == 2 && six_digits(b1[i][0], xs[i], 1.0) && six_digits(b1[i][1], f(xs[i]), 1.0);
+			if(!ok) fail("function", key, "descending_range_not_reproduced", "rows read back: " + std::to_string(b1.size()) + (b1.size() ? ", first abscissa " + mc::dec(b1[0][0]) + " expected " + mc::dec(xs[0]) : ""));
+			unlink(p1.c_str());
+		}
+	for(int pat = 0; pat < 4; pat++)
+	{
+		if(!mc::mine(unit++)) continue;
+		// lists with repeated and unsorted abscissae (two segments sharing an end point; a point given twice; descending)
+		V xs = pat == 0 ? V{0, 0.5, 1, 1, 1.5, 2} : pat == 1 ? V{2, 2} : pat == 2 ? V{3, 1, 2, 1, 3} : V{0.25, 0.25, 0.25, 4};
+		std::string key = "list_overload,abscissae=" + mc::decv(xs);
+		std::string p1 = g_dir + "/c20_fl_" + std::to_string(getpid());
+		VV b1;
+		if(mc::library_exits([&]() { Export_Function(p1, f, xs, V{}, "# x f"); b1 = Import_Table(p1, V{}, 1); })) { fail("function", key, "terminated_process", "ended the process"); continue; }
+		g_cases++;
+		g_trans += 2;
+		bool ok = b1.size() == xs.size();
+		for(size_t i = 0; ok && i < xs.size(); i++) ok = b1[i].size() == 2 && six_digits(b1[i][0], xs[i], 1.0) && six_digits(b1[i][1], f(xs[i]), 1.0);
+		if(!ok) fail("function", key, "abscissa_list_not_reproduced", "rows read back: " + std::to_string(b1.size()) + " for " + std::to_string(xs.size()) + " abscissae");
+		unlink(p1.c_str());
+	}
+}
+
 // file state is part of the system: every sequence of two exports to the same path, then an import: the last export wins
 static void file_states(unsigned long long& unit)
 {
@@ -421,6 +460,7 @@ int main(int argc, char** argv)
 	if(mc::shard0()) { in_units(); configurations(); }
 	tables(unit);
 	lists_and_functions(unit);
+	function_orders(unit);
 	file_states(unit);
 	mc::count("evaluations", g_cases);
 	mc::count("distinct_nontrivial", g_cases);
